@@ -301,7 +301,8 @@ func BuildConstraints(sel *Selection, params map[string][]string) error {
 			constraints.AddConstraint("fc.xfields", 10, 50, listSelector)
 		}
 	}
-	maxNode := MaxNode{Max: 10000}
+	// by pointer: the constraint counts the containers it lets through
+	maxNode := &MaxNode{Max: 10000}
 	if n, found := findIntParam(params, "fc.max-node-count"); found {
 		maxNode.Max = n
 	}
